@@ -138,6 +138,8 @@ type exec struct {
 	startS        int
 	persist       bool
 	dir           string
+	reopen        func() (quickfix.MessageStore, error)
+	reopened      [4]int // file store: counters of the live store and of a fresh store opened on its files (S, T, S', T')
 	ops           []storeOp
 }
 
@@ -187,6 +189,7 @@ func setup(sc scenario) *exec {
 		s2.Set(config.TargetCompID, "TW")
 		gs.AddSession(s2)
 		inner = filestore.NewStoreFactory(gs)
+		x.reopen = func() (quickfix.MessageStore, error) { return filestore.NewStoreFactory(gs).Create(id) }
 	}
 	vs, err := quickfix.VerifNewSession(false, id, pfactory{inner, &x.base, x}, ss, quickfix.NewNullLogFactory(), &app{x})
 	if err != nil {
@@ -364,6 +367,14 @@ func runWith(sc scenario, prefix []int, free bool) (res result) {
 	}()
 	vsync.S = nil
 	if x.dir != "" {
+		// what the files say once everything has come to rest: a fresh store opened on them
+		x.reopened = [4]int{x.base.NextSenderMsgSeqNum(), x.base.NextTargetMsgSeqNum(), -1, -1}
+		if x.reopen != nil {
+			if st, err := x.reopen(); err == nil {
+				x.reopened[2], x.reopened[3] = st.NextSenderMsgSeqNum(), st.NextTargetMsgSeqNum()
+				st.Close()
+			}
+		}
 		x.base.Close()
 		os.RemoveAll(x.dir)
 	}
@@ -384,6 +395,10 @@ func check(sc scenario, r result) (rule, what string) {
 	}
 	if len(x.sendErrs) > 0 {
 		return "C02/send-error", strings.Join(x.sendErrs, "; ")
+	}
+	// R9 (file store): the counter files say what the running store says
+	if x.dir != "" && x.reopened[2] >= 0 && (x.reopened[0] != x.reopened[2] || x.reopened[1] != x.reopened[3]) {
+		return "C02/R9-persisted-counters-differ", fmt.Sprintf("running store: next outbound %d, next inbound %d; a fresh store on the same files: %d, %d", x.reopened[0], x.reopened[1], x.reopened[2], x.reopened[3])
 	}
 	// R8: whatever is persisted / consumed carries the store's next unused number at that instant; after a reset the
 	// numbering restarts at 1 (checked on the store's own order of events, which is the order of the epochs)
@@ -565,6 +580,13 @@ var scenarios = []scenario{
 			x.vs.SendAppMessages()
 		}
 		x.vs.Disconnected()
+	}},
+	{name: "S11-inbound-traffic-during-sends", senders: []int{2}, session: func(x *exec) {
+		inbound(x, "0")
+		if _, ok := vsync.TryRecv(x.vs.MessageEventChan()); ok {
+			x.vs.SendAppMessages()
+		}
+		inbound(x, "0")
 	}},
 	{name: "S8-resend-trailing-admin", senders: []int{1}, history: []string{"D", "0", "0"}, session: func(x *exec) {
 		inbound(x, "2", fixscan.Field{Tag: 7, Value: "1"}, fixscan.Field{Tag: 16, Value: "0"})
